@@ -27,6 +27,9 @@ def cellLong (lo hi : Nat) : Int :=
   let u : Nat := (lo % 2^32) + (hi % 2^32) * 2^32
   if u < 2^63 then (u : Int) else (u : Int) - 2^64
 
+/-- a 64-bit cell as a signed `time_t` -/
+def cellI64 (v : Nat) : Int := if v % 2^64 < 2^63 then ((v % 2^64 : Nat) : Int) else ((v % 2^64 : Nat) : Int) - 2^64
+
 /-- short-circuit `a || b || …` over tm fields: `(cell index, predicate)`; reads the fields in the order of the C expression -/
 def anyField (tm : Nat) : List (Nat × (Int → Bool)) → Prog Bool
   | [] => pure false
@@ -104,11 +107,11 @@ def ctime_s (cfg : Cfg) (dest dmax timer : Nat) (destbos : Bos) (text : Nat) : P
     if timer = 0 then failClr cfg dest dmax ESNULLP
     else do
       let t ← load timer
-      let tv : Int := if t % 2^64 < 2^63 then ((t % 2^64 : Nat) : Int) else ((t % 2^64 : Nat) : Int) - 2^64
+      let tv : Int := cellI64 t
       if tv < 0 then failClr cfg dest dmax ESLEMIN
       else do
         let t2 ← load timer
-        let tv2 : Int := if t2 % 2^64 < 2^63 then ((t2 % 2^64 : Nat) : Int) else ((t2 % 2^64 : Nat) : Int) - 2^64
+        let tv2 : Int := cellI64 t2
         if tv2 ≥ MAX_CTIME_T then failClr cfg dest dmax ESLEMAX
         else timeTail cfg dest dmax destbos text
 
